@@ -1,15 +1,17 @@
 (* Spec/SymEval.v -- what a symbolic expression tree (Model/Sym.v) denotes in a concrete execution:
    pure symbols by the EVM word semantics (Spec/EvmSem.v); entry-stack variables, environment
-   words, calldataload/blockhash from the execution's environment; every state-read node
-   (sload, mload, gas, call results, ...) by the word that the execution observed at that
-   occurrence.  TRUSTED (specification side; does not mention z3). *)
+   words, calldataload/blockhash from the execution's environment; every node that the analysis
+   leaves unconstrained -- state reads (sload, mload, gas, call results, ...) and EXP with an
+   exponent that is not a literal below 2^64 -- by the word that the execution observed at
+   that occurrence.  TRUSTED (specification side; does not mention z3 terms). *)
 From Verif Require Import Model.Base Model.Sym Spec.EvmSem.
 Open Scope Z_scope.
 
-(* symbols whose value is a function of their children's values *)
+(* symbols that the analysis always evaluates as a function of their children's values
+   (Exp is one only when its exponent is a literal, see lit64 below) *)
 Definition pure_sym (s : sym) : bool :=
   match s with
-  | SAdd | SMul | SSub | SDiv | SSDiv | SMod | SSMod | SAddMod | SMulMod | SExp
+  | SAdd | SMul | SSub | SDiv | SSDiv | SMod | SSMod | SAddMod | SMulMod
   | SLt | SGt | SSLt | SSGt | SEq | SAnd | SOr | SXor | SByte | SShl | SShr | SSar
   | SSignExtend | SIsZero | SNot => true
   | _ => false
@@ -48,17 +50,36 @@ Definition read_sym (s : sym) : bool :=
   | _ => false
   end.
 
+(* lit64 t = Some v: the expression t is a literal word v < 2^64 for the analysis: a constant,
+   a program counter, or x ** 0 (which the analysis folds to the literal 1).  An EXP node is
+   evaluated as a power only when its exponent (second child) is such a literal. *)
+Fixpoint lit64 (t : stree) : option Z :=
+  match t with
+  | SNode (SConst v) _ => if v <? 2 ^ 64 then Some v else None
+  | SNode (SGetPc p) _ => if p <? 2 ^ 64 then Some p else None
+  | SNode SExp [_; e] => match lit64 e with Some 0 => Some 1 | _ => None end
+  | _ => None
+  end.
+Definition exp_is_literal (args : list stree) : bool :=
+  match args with
+  | [_; e] => match lit64 e with Some _ => true | None => false end
+  | _ => false
+  end.
+
 Record senv := mkSenv {
   se_var : Z -> Z;            (* entry stack: Var n *)
   se_env : sym -> Z;          (* environment words, for env_sym symbols *)
   se_calldataload : Z -> Z;
   se_blockhash : Z -> Z;
-  se_read : nat -> Z          (* the word observed at the k-th state-read node, in post-order *)
+  se_read : nat -> Z          (* the word observed at the k-th unconstrained node (state read, or
+                                 EXP with a non-literal exponent: then a ** b), in post-order *)
 }.
 
-(* value of a node from the values of its children; the nat counts state-read nodes *)
-Definition eval_node (E : senv) (s : sym) (vs : list Z) (n : nat) : Z * nat :=
+(* value of a node from the values of its children; the nat counts unconstrained nodes;
+   lit: the node is an EXP whose exponent is a literal *)
+Definition eval_node (E : senv) (s : sym) (lit : bool) (vs : list Z) (n : nat) : Z * nat :=
   match s with
+  | SExp => if lit then (evm_exp (nth 0 vs 0) (nth 1 vs 0), n) else (wrap (se_read E n), S n)
   | SConst v => (wrap v, n)
   | SVar k => (wrap (se_var E k), n)
   | SGetPc p => (wrap p, n)
@@ -82,7 +103,7 @@ Fixpoint eval_tree (E : senv) (t : stree) (n : nat) : Z * nat :=
             (vx :: vr, n2)
         end in
       let '(vs, n') := go args n in
-      eval_node E s vs n'
+      eval_node E s (exp_is_literal args) vs n'
   end.
 Definition eval_trees (E : senv) : list stree -> nat -> list Z * nat :=
   fix go (l : list stree) (n : nat) : list Z * nat :=
